@@ -52,10 +52,12 @@ structure Tables where
   defaults : Map
   configurable : List (Name × CfgTy)
   booleanStates : List (Str × Bool)
-  maxInterpDepth : Nat
   defaultSection : Str
   commands : List Str
   argDefaults : List (Str × Map)
+  /-- `models.bank.stmt.ACCTTYPES` and `models.common.SVCSTATUSES` -/
+  acctTypes : List Str
+  svcStatuses : List Str
   deriving Repr
 
 /-- `bool(v)` -/
@@ -158,92 +160,29 @@ def Ini.toFile (c : Ini) : FileC :=
   let rd (s : Sect) : List (Str × Str) := s.map fun kv => (kv.1, strip kv.2)
   (defaultSect, rd c.defaults) :: c.sections.map fun sec => (sec.1, rd sec.2)
 
-/-- consume `name)s` (the part of `%(name)s` after `%(`); the name is non-empty and has no `)` -/
-def dropKeyRef : Str → Option (Str × Str) :=
-  let rec go (acc : Str) : Str → Option (Str × Str)
-    | [] => none
-    | c :: cs =>
-      if c = ')' then
-        (if acc.isEmpty then none else
-          match cs with
-          | 's' :: rest => some (acc.reverse, rest)
-          | _ => none)
-      else go (c :: acc) cs
-  go []
-
-/-- `_KEYCRE.sub('', s)` for `_KEYCRE = %\(([^)]+)\)s` -/
-def removeKeyRefs : Nat → Str → Str
-  | 0, s => s
-  | _ + 1, [] => []
-  | f + 1, c :: cs =>
-    if c = '%' then
-      match cs with
-      | '(' :: r =>
-        match dropKeyRef r with
-        | some (_, r') => removeKeyRefs f r'
-        | none => c :: removeKeyRefs f cs
-      | _ => c :: removeKeyRefs f cs
-    else c :: removeKeyRefs f cs
-
-/-- `BasicInterpolation.before_set` accepts the value (else `ValueError`) -/
-def validSet (v : Str) : Bool :=
-  let t := replace "%%".toList [] v
-  let t := removeKeyRefs (t.length + 1) t
-  !t.contains '%'
-
-/-- `_interpolate_some`'s loop over `rest`; `recur` interpolates a referenced value one level deeper -/
-def interpScan (look : Name → Option Str) (recur : Str → PyM Str) : Nat → Str → PyM Str
-  | 0, _ => .error .other
-  | _ + 1, [] => .ok []
-  | f + 1, c :: cs =>
-    if c = '%' then
-      match cs with
-      | '%' :: rest => do
-        let r ← interpScan look recur f rest
-        pure ('%' :: r)
-      | '(' :: r =>
-        match dropKeyRef r with
-        | none => .error .other            -- InterpolationSyntaxError
-        | some (name, rest) =>
-          match look (lower name) with
-          | none => .error .other          -- InterpolationMissingOptionError
-          | some v => do
-            let v' ← if v.contains '%' then recur v else pure v
-            let r ← interpScan look recur f rest
-            pure (v' ++ r)
-      | _ => .error .other                 -- InterpolationSyntaxError
-    else do
-      let r ← interpScan look recur f cs
-      pure (c :: r)
-
-/-- `_interpolate_some` with `depth` levels left (`InterpolationDepthError` at 0) -/
-def interpDepth (look : Name → Option Str) : Nat → Str → PyM Str
-  | 0, _ => .error .other
-  | d + 1, s => interpScan look (interpDepth look d) (s.length + 1) s
-
-/-- `BasicInterpolation.before_get` -/
-def interpolate (T : Tables) (look : Name → Option Str) (v : Str) : PyM Str :=
-  interpDepth look T.maxInterpDepth v
-
 /-- raw lookup in a sect with DEFAULT showing through (`_unify_values`) -/
 def Ini.raw (c : Ini) (sect : Str) (k : Name) : Option Str :=
   match (c.sect sect).lookup k with
   | some v => some v
   | none => c.defaults.lookup k
 
-/-- `cfg[sect].get(k)`: interpolated value, `None` when the option is missing -/
-def Ini.get (T : Tables) (c : Ini) (sect : Str) (k : Name) : PyM (Option Str) :=
-  match c.raw sect k with
-  | none => .ok none
-  | some v => do
-    let s ← interpolate T (c.raw sect) v
-    pure (some s)
+/-- `cfg[sect].get(k)`: the stored text, verbatim (`interpolation=None`); `None` when the option is missing -/
+def Ini.get (c : Ini) (sect : Str) (k : Name) : Option Str := c.raw sect k
 
-/-- `cfg[sect][k] = v` (`ConfigParser.set`): validation only for non-empty values -/
-def Ini.set (c : Ini) (sect : Str) (k : Name) (v : Str) : PyM Ini :=
-  if !v.isEmpty && !validSet v then .error .value
-  else if sect == defaultSect then .ok { c with defaults := mapSet (lower k) v c.defaults }
-  else .ok { c with sections := mapSet sect (mapSet (lower k) v (c.sect sect)) c.sections }
+/-- `cfg[sect][k] = v` (`ConfigParser.set` with `interpolation=None`: no validation of the text) -/
+def Ini.set (c : Ini) (sect : Str) (k : Name) (v : Str) : Ini :=
+  if sect == defaultSect then { c with defaults := mapSet (lower k) v c.defaults }
+  else { c with sections := mapSet sect (mapSet (lower k) v (c.sect sect)) c.sections }
+
+/-- `del d[k]` if present -/
+def mapErase (k : Name) : List (Name × β) → List (Name × β)
+  | [] => []
+  | (k', v) :: rest => if k' == k then rest else (k', v) :: mapErase k rest
+
+/-- `cfg.remove_option(sect, k)` for an existing section (or DEFAULT) -/
+def Ini.removeOption (c : Ini) (sect : Str) (k : Name) : Ini :=
+  if sect == defaultSect then { c with defaults := mapErase (lower k) c.defaults }
+  else { c with sections := mapSet sect (mapErase (lower k) (c.sect sect)) c.sections }
 
 /-- option names a sect proxy iterates over: the sect's, then DEFAULT's not already seen -/
 def Ini.options (c : Ini) (sect : Str) : List Name :=
@@ -283,8 +222,8 @@ def typedOfStr (T : Tables) (ty : CfgTy) (s : Str) : PyM CfgVal :=
   | .list => .ok (.list (convertList s))
 
 /-- one entry of the dict comprehension in `read_config`: `handlers[CONFIGURABLE[opt]](opt)` -/
-def readOne (T : Tables) (c : Ini) (sect : Str) (kt : Name × CfgTy) : PyM (Name × CfgVal) := do
-  match ← c.get T sect kt.1 with
+def readOne (T : Tables) (c : Ini) (sect : Str) (kt : Name × CfgTy) : PyM (Name × CfgVal) :=
+  match c.get sect kt.1 with
   | none => pure (kt.1, CfgVal.null)
   | some s => do
     let v ← typedOfStr T kt.2 s
@@ -430,28 +369,60 @@ def arg2config (ty : CfgTy) (v : CfgVal) : PyM Str :=
   | .bool, _ => .error .key
   | .list, v => .ok (writeList (pyStr v))
 
+/-- outcome of `test_cfg_val(opt, value)`: write the value, leave the section alone, or (value equal to the
+    library default) drop what the section stores for the option -/
+inductive CfgAction where
+  | write | skip | drop
+  deriving DecidableEq, Repr
+
 /-- `test_cfg_val(opt, value)` -/
-def testCfgVal (T : Tables) (defaultsUid : PyM Str) (libCfg : Map) (opt : Name) (value : CfgVal) : PyM Bool :=
-  if isNullArg value then pure false
+def testCfgVal (T : Tables) (defaultsUid : PyM Str) (libCfg : Map) (opt : Name) (value : CfgVal) : PyM CfgAction :=
+  if isNullArg value then pure .skip
   else do
     let skipUid ← if opt == "clientuid".toList then (do
         let u ← defaultsUid
         pure (pyEq value (.str u))) else pure false
-    if skipUid then pure false
+    if skipUid then pure .skip
     else do
       let dflt ← match T.defaults.lookup opt with
         | some d => pure d
         | none => .error .key
       let ref := (libCfg.lookup opt).getD dflt
-      pure (!pyEq value ref)
+      pure (if pyEq value ref then .drop else .write)
+
+/-- one turn of the loop `for opt, opt_type in CONFIGURABLE.items()` of `mk_server_cfg` -/
+def writeOpt (T : Tables) (args : Chain) (libCfg : Map) (server : Str) (cfg : Ini) (ot : Name × CfgTy) : PyM Ini :=
+  match args.get? ot.1 with
+  | none => pure cfg
+  | some value => do
+    let uid : PyM Str :=
+      match cfg.get defaultSect "clientuid".toList with
+      | some u => pure u
+      | none => .error .key
+    match ← testCfgVal T uid libCfg ot.1 value with
+    | .write => do
+      let s ← arg2config ot.2 value
+      pure (cfg.set server ot.1 s)
+    | .drop => pure (cfg.removeOption server ot.1)
+    | .skip => pure cfg
+
+/-- the configuration `mk_server_cfg` starts from: `USERCFG.clear()` (keeps DEFAULT), `USERCFG.read(USERCONFIGPATH)`,
+    a global CLIENTUID if there is none -/
+def reloadCfg (mem : Ini) (disk : FileC) (uuid : Str) : Ini :=
+  let cfg := ({ mem with sections := [] } : Ini).loadFile disk
+  if (cfg.defaults.lookup "clientuid".toList).isSome then cfg
+  else cfg.set defaultSect "clientuid".toList uuid
+
+/-- `USERCFG[server] = {}` unless the section exists (`DEFAULT`: the section is emptied) -/
+def ensureSection (cfg : Ini) (server : Str) : Ini :=
+  if cfg.hasSection server then cfg
+  else if server == defaultSect then { cfg with defaults := [] }
+  else { cfg with sections := cfg.sections ++ [(server, [])] }
 
 /-- `mk_server_cfg(args)`: `mem` is `USERCFG` as it stands, `lib` is `LIBCFG`, `disk` the user file
     (`[]` when it does not exist), `uuid` what `OFXClient.uuid` would return now -/
 def mkServerCfg (T : Tables) (args : Chain) (mem lib : Ini) (disk : FileC) (uuid : Str) : PyM Ini := do
-  -- USERCFG.clear() keeps DEFAULT; USERCFG.read(USERCONFIGPATH)
-  let cfg := ({ mem with sections := [] } : Ini).loadFile disk
-  let cfg ← if (cfg.defaults.lookup "clientuid".toList).isSome then pure cfg
-            else cfg.set defaultSect "clientuid".toList uuid
+  let cfg := reloadCfg mem disk uuid
   let server := (args.get? "server".toList).getD .null
   let bad ← if !truthy server then pure true else do
       let url ← args.getItem "url".toList
@@ -460,25 +431,9 @@ def mkServerCfg (T : Tables) (args : Chain) (mem lib : Ini) (disk : FileC) (uuid
   else
     match server with
     | .str server => do
-      let cfg : Ini :=
-        if cfg.hasSection server then cfg
-        else if server == defaultSect then { cfg with defaults := [] }
-        else { cfg with sections := cfg.sections ++ [(server, [])] }
-      -- `logger.debug(f"Existing user config section: {dict(cfg)}")` reads (interpolates) every option
-      let _ ← (cfg.options server).mapM (fun k => cfg.get T server k)
+      let cfg := ensureSection cfg server
       let libCfg ← readConfig T lib server
-      T.configurable.foldlM (fun (cfg : Ini) (ot : Name × CfgTy) =>
-        match args.get? ot.1 with
-        | none => pure cfg
-        | some value => do
-          let uid : PyM Str := do
-            match ← cfg.get T defaultSect "clientuid".toList with
-            | some u => pure u
-            | none => .error .key
-          if ← testCfgVal T uid libCfg ot.1 value then do
-            let s ← arg2config ot.2 value
-            cfg.set server ot.1 s
-          else pure cfg) cfg
+      T.configurable.foldlM (writeOpt T args libCfg server) cfg
     | _ => .error .key
 
 /-- `write_config(args)`: `none` = nothing written (dry run); `some cfg` = the file now holds `cfg` -/
@@ -545,25 +500,35 @@ def mapAppend (k : Name) (v : Str) : Map → Map
   | (k', .list l) :: rest => if k' == k then (k', .list (l ++ [v])) :: rest else (k', .list l) :: mapAppend k v rest
   | kv :: rest => kv :: mapAppend k v rest
 
+/-- body of the loop of `parse_bankacctinfos`: state = (bankids, args_) -/
+def bankStep (st : List Str × Map) (inf : AcctInfo) : List Str × Map :=
+  match inf with
+  | .bank bankid acctid accttype _ =>
+    if inf.isActive then (st.1 ++ [bankid], mapAppend (lower accttype) acctid st.2) else st
+  | _ => st
+
 /-- `parse_bankacctinfos` -/
 def parseBankAcctinfos (infos : List AcctInfo) : PyM Map := do
-  let (ids, m) := infos.foldl (fun (st : List Str × Map) inf =>
-    match inf with
-    | .bank bankid acctid accttype _ =>
-      if inf.isActive then (st.1 ++ [bankid], mapAppend (lower accttype) acctid st.2) else st
-    | _ => st) ([], [])
-  let b ← collapseToSingle ids
-  pure (mapSet "bankid".toList (.str b) m)
+  let st := infos.foldl bankStep ([], [])
+  if st.1.isEmpty then pure st.2
+  else do
+    let b ← collapseToSingle st.1
+    pure (mapSet "bankid".toList (.str b) st.2)
+
+/-- body of the loop of `parse_invacctinfos`: state = (brokerids, args_) -/
+def invStep (st : List Str × Map) (inf : AcctInfo) : List Str × Map :=
+  match inf with
+  | .inv brokerid acctid _ =>
+    if inf.isActive then (st.1 ++ [brokerid], mapAppend "investment".toList acctid st.2) else st
+  | _ => st
 
 /-- `parse_invacctinfos` -/
 def parseInvAcctinfos (infos : List AcctInfo) : PyM Map := do
-  let (ids, m) := infos.foldl (fun (st : List Str × Map) inf =>
-    match inf with
-    | .inv brokerid acctid _ =>
-      if inf.isActive then (st.1 ++ [brokerid], mapAppend "investment".toList acctid st.2) else st
-    | _ => st) ([], [])
-  let b ← collapseToSingle ids
-  pure (mapSet "brokerid".toList (.str b) m)
+  let st := infos.foldl invStep ([], [])
+  if st.1.isEmpty then pure st.2
+  else do
+    let b ← collapseToSingle st.1
+    pure (mapSet "brokerid".toList (.str b) st.2)
 
 /-- `parse_ccacctinfos` -/
 def parseCcAcctinfos (infos : List AcctInfo) : Map :=
@@ -594,15 +559,20 @@ def groupByKey (key : α → Str) : List α → List (Str × List α)
     | (k, g) :: rest => if k == key x then (k, x :: g) :: rest else (key x, [x]) :: (k, g) :: rest
     | [] => [(key x, [x])]
 
+/-- `parse_acctinfos(clsName, acctinfos)`: the dispatcher of `_merge_acctinfo` -/
+def parseGroup (g : Str × List AcctInfo) : PyM Map :=
+  if g.1 == "BANKACCTINFO".toList then parseBankAcctinfos g.2
+  else if g.1 == "CCACCTINFO".toList then pure (parseCcAcctinfos g.2)
+  else if g.1 == "INVACCTINFO".toList then parseInvAcctinfos g.2
+  else pure []
+
+/-- `sorted(extract_acctinfos(markup), key=sortKey)` then `itertools.groupby(…, key=sortKey)` -/
+def acctGroups (infos : List AcctInfo) : List (Str × List AcctInfo) :=
+  groupByKey AcctInfo.clsName (sortBy (fun a b => strLe a.clsName b.clsName) infos)
+
 /-- the mapping `_merge_acctinfo` inserts: `ChainMap(*parsed_args)`, flattened (first entry wins) -/
 def parsedAcctinfo (infos : List AcctInfo) : PyM Map := do
-  let sorted := sortBy (fun a b => strLe a.clsName b.clsName) infos
-  let groups := groupByKey AcctInfo.clsName sorted
-  let maps ← groups.mapM (fun (g : Str × List AcctInfo) =>
-    if g.1 == "BANKACCTINFO".toList then parseBankAcctinfos g.2
-    else if g.1 == "CCACCTINFO".toList then pure (parseCcAcctinfos g.2)
-    else if g.1 == "INVACCTINFO".toList then parseInvAcctinfos g.2
-    else pure [])
+  let maps ← (acctGroups infos).mapM parseGroup
   pure maps.flatten
 
 /-- `_merge_acctinfo(args, markup)` given the extracted `*ACCTINFO`s -/
@@ -690,11 +660,8 @@ structure Plan (δ : Type) where
   client : Map
   args : Chain
 
-/-- `request_stmt(args)` up to the call of `client.request_statements` -/
-def requestStmt (D : Option Str → PyM (Option δ)) (args : Chain) (acct : PyM (List AcctInfo)) : PyM (Plan δ) := do
-  let dt ← convertDatetime D args
-  let _ ← args.getItem "dryrun".toList        -- get_passwd
-  let args ← discover args acct
+/-- the three loops of `request_stmt` over the (possibly discovered) mapping -/
+def stmtRequests (dt : Dates δ) (args : Chain) : PyM (List (Rq δ)) := do
   let bank ← bankTypes.foldlM (fun (acc : List (Rq δ)) ty => do
     let ids ← acctIds args ty
     let inctran ← args.getItem "inctran".toList
@@ -710,20 +677,33 @@ def requestStmt (D : Option Str → PyM (Option δ)) (args : Chain) (acct : PyM 
     let incpos ← args.getItem "incpos".toList
     let incbal ← args.getItem "incbal".toList
     pure (Rq.invstmt id dt.start dt.end dt.asof inctran incoo incpos incbal)
+  pure (bank ++ cc ++ inv)
+
+/-- `request_stmt(args)` up to the call of `client.request_statements` -/
+def requestStmt (D : Option Str → PyM (Option δ)) (args : Chain) (acct : PyM (List AcctInfo)) : PyM (Plan δ) := do
+  let dt ← convertDatetime D args
+  let _ ← args.getItem "dryrun".toList        -- get_passwd
+  let args ← discover args acct
+  let rqs ← stmtRequests dt args
   let client ← initClient args
-  pure ⟨bank ++ cc ++ inv, client, args⟩
+  pure ⟨rqs, client, args⟩
+
+/-- the two loops of `request_stmtend` -/
+def stmtendRequests (dt : Dates δ) (args : Chain) : PyM (List (Rq δ)) := do
+  let bank ← bankTypes.foldlM (fun (acc : List (Rq δ)) ty => do
+    let ids ← acctIds args ty
+    pure (acc ++ ids.map fun id => Rq.stmtend id (upper ty) dt.start dt.end)) []
+  let ccIds ← acctIds args "creditcard".toList
+  let cc := ccIds.map fun id => Rq.ccstmtend id dt.start dt.end
+  pure (bank ++ cc)
 
 /-- `request_stmtend(args)` up to the call of `client.request_statements` -/
 def requestStmtend (D : Option Str → PyM (Option δ)) (args : Chain) (acct : PyM (List AcctInfo)) : PyM (Plan δ) := do
   let dt ← convertDatetime D args
   let _ ← args.getItem "dryrun".toList
   let args ← discover args acct
-  let bank ← bankTypes.foldlM (fun (acc : List (Rq δ)) ty => do
-    let ids ← acctIds args ty
-    pure (acc ++ ids.map fun id => Rq.stmtend id (upper ty) dt.start dt.end)) []
-  let ccIds ← acctIds args "creditcard".toList
-  let cc := ccIds.map fun id => Rq.ccstmtend id dt.start dt.end
+  let rqs ← stmtendRequests dt args
   let client ← initClient args
-  pure ⟨bank ++ cc, client, args⟩
+  pure ⟨rqs, client, args⟩
 
 end Ofx.Ofxget
